@@ -177,6 +177,7 @@ CHECKS = {
         level_note="Pre-existing content ends with a newline (what 'the line' is otherwise is not defined). Truncation/rotation is outside the statement. Schedules of writer, poller and consumer are sampled through generated delays, not enumerated.",
         tests=[
             dict(name="TestC04Follow", quick=dict(checks=10, shards=10, timeout=900), thorough=dict(checks=250, shards=10, timeout=3400)),
+            dict(name="TestC04LongFollow", quick=dict(checks=2, shards=4, timeout=900), thorough=dict(checks=12, shards=5, timeout=3400)),
             dict(name="TestC04SharedQueue", quick=dict(checks=25, shards=6, timeout=900), thorough=dict(checks=600, shards=6, timeout=3400)),
         ]),
 }
